@@ -41,6 +41,15 @@ def run(facts, tr, rep):
     b = cor[0]
     rep.saw(b)
     g = graph(b)
+    # private synchronous helpers called from the call future are part of the decision code (e.g. an extracted
+    # `sample_latency`); each is remembered with the call node it is entered from
+    helper_of = {}
+    for c in g.calls():
+        node = ("call", b.crate.name, b.def_, c.bb)
+        hb = tr.local_sync_callee(node)
+        if hb is not None and hb.crate.name == CRATE and hb not in bodies:
+            bodies.append(hb)
+            helper_of[hb.def_] = (node, c)
     # ---------------------------------------------------------------- DETERMINISM
     draws = []
     for bd in bodies:
@@ -51,13 +60,19 @@ def run(facts, tr, rep):
     locks = [c for c in g.calls() if c.name == "lock" and "utex" in (c.path or "")]
     for n, (bd, c) in enumerate(draws):
         rep.saw(bd)
-        recv = tr.expand(tr.operand(bd, c.args[0], c.loc), upvars=True)
+        if bd.def_ in helper_of:
+            with tr.bound(bd, helper_of[bd.def_][0]):
+                recv = tr.expand(tr.operand(bd, c.args[0], c.loc), upvars=True)
+        else:
+            recv = tr.expand(tr.operand(bd, c.args[0], c.loc), upvars=True)
         lk = calls_in(tr, recv, lambda x: x.name == "lock" and "utex" in (x.path or ""))
         from_field = False
         for l in lk:
             mx = tr.expand(tr.operand(l.g.b, l.args[0], l.loc), upvars=True)
-            if mentions_field(tr, mx, "rng"):
-                from_field = True
+            # the mutex is the service's own generator field (identified by its type, not its name)
+            for x in tr.walk(mx, limit=40):
+                if x[0] == "field" and x[3] and _is_rng_field(facts, x):
+                    from_field = True
         rep.ob("C19.DETERMINISM", skey(bd, "draw#%d" % n), bool(lk) and from_field, c.where(),
                "the draw is made on the service's own generator, under its mutex" if lk and from_field else
                "a random draw (%s) is not made on the service's seeded generator: the decision sequence is not a function of the seed" % c.path[:60])
@@ -95,7 +110,8 @@ def run(facts, tr, rep):
     rep.floor("C19.share-fields", nsh, 2)
     # the service's generator is the one create_rng built
     # ---------------------------------------------------------------- ONE-REGION
-    own = [c for (bd, c) in draws if bd is b]
+    own = [c for (bd, c) in draws if bd is b] + [helper_of[bd.def_][1] for (bd, c) in draws if bd.def_ in helper_of]
+    own = list({c.bb: c for c in own}.values())
     if own and locks:
         lk = locks[0]
         region_ok = all(g.node_dominates(lk.bb, c.bb) for c in own) and len(locks) == 1
@@ -168,6 +184,23 @@ def run(facts, tr, rep):
     rep.floor("C19.sleep-sites", len(sleeps), 1)
     for n, c in enumerate(sleeps):
         d = tr.expand(tr.operand(b, c.args[0], c.loc))
+        ctx_ = None
+        for lf in leaves(d):
+            hb2 = tr.local_sync_callee(peel(lf))
+            if hb2 is not None and hb2.def_ in helper_of:
+                ctx_ = (hb2, peel(lf))
+        if ctx_ is not None:
+            with tr.bound(ctx_[0], ctx_[1]):
+                rets_ = tr.helper_returns(ctx_[0])
+                from ..core import phi as _phi
+                d = _phi(rets_) if rets_ else d
+                ok, detail = _latency_ok(tr, ctx_[0], d)
+            rep.ob("C19.LATENCY", skey(b, "sleep#%d" % n), ok, c.where(),
+                   "the injected latency is from_millis(x), x drawn from as_millis(min_latency) ..= as_millis(max_latency) (or min when the range is empty)" if ok else detail)
+            edges = dominating_edges(tr, b, c.bb)
+            rep.ob("C19.LATENCY", skey(b, "sleep#%d|decided" % n), any(e["kind"] == "bool" and e["label"] == "true" for e in edges), c.where(),
+                   "the sleep happens only when latency injection was decided")
+            continue
         fm = calls_in(tr, d, lambda x: x.name == "from_millis")
         ok = False
         detail = "the injected latency is not from_millis(random_range(min_ms..=max_ms) | min_ms)"
@@ -211,6 +244,64 @@ def run(facts, tr, rep):
         edges = dominating_edges(tr, b, c.bb)
         rep.ob("C19.LATENCY", skey(b, "sleep#%d|decided" % n), any(e["kind"] == "bool" and e["label"] == "true" for e in edges), c.where(),
                "the sleep happens only when latency injection was decided")
+
+
+def _is_rng_field(facts, node):
+    adt = facts.adt(node[3])
+    if adt is None:
+        return False
+    crate = [c for c in facts.crates.values() if node[3] in c.adts][0]
+    for v in adt["variants"]:
+        for f in v["fields"]:
+            if f["name"] == node[2]:
+                t = crate.types[f["ty"]]["s"]
+                return "Mutex<" in t and "Rng" in t
+    return False
+
+
+def _latency_ok(tr, b, d):
+    """d = from_millis(x) with x = random_range(as_millis(min)..=as_millis(max)) guarded by max_ms > min_ms, else as_millis(min)"""
+    fm = calls_in(tr, d, lambda x: x.name == "from_millis")
+    if not fm:
+        return False, "the injected latency is not from_millis(random_range(min_ms..=max_ms) | min_ms)"
+    bb_ = fm[0].g.b
+    x = tr.expand(tr.operand(bb_, fm[0].args[0], fm[0].loc), upvars=True)
+    lv = [peel(y) for y in leaves(x)]
+    rr = [y for y in lv if y[0] == "call" and tr.call_of(y).name == "random_range"]
+    others = [y for y in lv if y not in rr]
+
+    def ms_of(node, which):
+        node = peel(node)
+        while node[0] == "cast":
+            node = peel(node[2])
+        if node[0] != "call":
+            return False
+        cc = tr.call_of(node)
+        return cc.name == "as_millis" and mentions_field(tr, tr.expand(tr.operand(cc.g.b, cc.args[0], cc.loc), upvars=True), which)
+    ok_other = all(ms_of(y, "min_latency") for y in others) and len(others) == 1
+    ok_rr = False
+    for y in rr:
+        rc = tr.call_of(y)
+        rb = rc.g.b
+        rng = peel(tr.expand(tr.operand(rb, rc.args[1], rc.loc), upvars=True))
+        if rng[0] == "call" and "RangeInclusive" in (tr.call_of(rng).path or ""):
+            r2 = tr.call_of(rng)
+            lo = tr.expand(tr.operand(rb, r2.args[0], r2.loc), upvars=True)
+            hi = tr.expand(tr.operand(rb, r2.args[1], r2.loc), upvars=True)
+            guarded = False
+            for e in dominating_edges(tr, rb, rc.bb):
+                if e["kind"] == "bool":
+                    cm = cmp_on_edge(tr, e)
+                    if cm:
+                        cm = (cm[0], tr.expand(cm[1], upvars=True), tr.expand(cm[2], upvars=True))
+                    if cm and cm[0] == "Gt" and ms_of(cm[1], "max_latency") and ms_of(cm[2], "min_latency"):
+                        guarded = True
+                    if cm and cm[0] == "Lt" and ms_of(cm[1], "min_latency") and ms_of(cm[2], "max_latency"):
+                        guarded = True
+            ok_rr = ms_of(lo, "min_latency") and ms_of(hi, "max_latency") and guarded
+    ok = ok_other and ok_rr and len(rr) == 1
+    return ok, ("latency bounds: range ok=%s, fallback ok=%s (bounds must be as_millis() of min_latency / max_latency, range inclusive and guarded "
+                "by max_ms > min_ms)" % (ok_rr, ok_other))
 
 
 def _is_zero_f(n):
